@@ -214,7 +214,7 @@ func writeStructFieldUnmarshaller(name string, typ FieldType, w *iohelp.ErrorWri
 			writeLineWithTabs(w, lnName+" := iohelp.ReadUint32(r)", depth)
 		}
 		writeLineWithTabs(w, "%RECV = make(%TYPE, "+lnName+")", depth, name, typ.Map.goString(settings))
-		writeLineWithTabs(w, "for "+iName+" := uint32(0); "+iName+" < "+lnName+"; "+iName+"++ {", depth, name)
+		writeLineWithTabs(w, "for "+iName+" := uint32(0); "+iName+" < "+lnName+" && r.Err == nil; "+iName+"++ {", depth, name)
 		ln := getLineWithTabs(settings.typeUnmarshallers[typ.Map.Key], depth+1, "&"+depthName("k", depth))
 		w.SafeWrite([]byte(strings.Replace(ln, "=", ":=", 1)))
 		name = "&(" + name[1:] + "[" + depthName("k", depth) + "])"
